@@ -223,6 +223,16 @@ func (e *Exec) Generate() (err error) {
 			fs = joinFacts(fs, r.st.facts)
 		}
 		e.Obls = append(e.Obls, &Obligation{Func: e.fnName, Kind: "cover", Label: "some-return-reachable", Guard: reach, Goal: c.True(), Facts: fs, Cover: true, Pos: e.Prog.Fset.Position(fn.Pos())})
+		// soft per-return covers: a return that is unreachable under the assumed
+		// contracts has its postconditions proved vacuously.  That is legitimate
+		// for dead defensive code, and a symptom of a contradictory assumed
+		// contract otherwise (the SetBytes hole, DESIGN 7), so it is reported as
+		// a NOTE and listed in the evidence, never as an alarm.
+		if len(rets) > 1 && spec != nil && len(spec.Ensures) > 0 {
+			for i, r := range rets {
+				e.Obls = append(e.Obls, &Obligation{Func: e.fnName, Kind: "cover", Label: fmt.Sprintf("return-reachable@ret%d", i), Guard: r.st.guard, Goal: c.True(), Facts: r.st.facts, Cover: true, Soft: true, Pos: e.Prog.Fset.Position(r.pos)})
+			}
+		}
 	}
 	return nil
 }
